@@ -260,7 +260,10 @@ struct Emitter {
         }
       }
       if (OD->hasAssociatedStmt()) {
-        const Stmt *Body = OD->getInnermostCapturedStmt()->getCapturedStmt();
+        // parallel/for/... capture their body; critical/atomic/master do not
+        const Stmt *Body = OD->getAssociatedStmt();
+        while (const auto *CS = dyn_cast_or_null<CapturedStmt>(Body))
+          Body = CS->getCapturedStmt();
         if (!first) OS << ",";
         first = false;
         emitStmt(Body);
@@ -390,6 +393,7 @@ struct Emitter {
     std::vector<const OMPExecutableDirective *> Dirs = OmpDirs;
     for (const OMPExecutableDirective *OD : Dirs) {
       if (!OD->hasAssociatedStmt()) continue;
+      if (!isa<CapturedStmt>(OD->getAssociatedStmt())) continue;
       const CapturedStmt *CS = OD->getInnermostCapturedStmt();
       if (!first) OS << ",";
       first = false;
